@@ -354,7 +354,7 @@ package updown
 //@   before return#4: assert [c18.error.first] len(recvd(cErr)) == 1 && err == recvd(cErr)[0]
 //@   before return#5: assert [c18.error.first] len(recvd(cErr)) == 1 && err == recvd(cErr)[0]
 //@   before return#6: assert [c18.nil.means.clean] len(recvd(cErr)) == 0 && len(recvd(cFRDone)) == 1 && len(recvd(cudLsDone)) == 1 && len(recvd(cWriteDone)) == 1
-//@   ensures [c18.error.returned] implies(gErrSeen, result != nil)
+//@   ensures [local.c18.error.returned] implies(gErrSeen, result != nil)
 //@ # the whole orchestration of `updown topranking` in spawns mode (see closest.Closest for the model and for what the two
 //@ # `assume` clauses stand on: findUpDownCatchment[PushDistance]'s post-condition sent(cOut)[0].qidx == q.idx with exactly
 //@ # one send, the query readers' idx post-conditions and the worker wiring proved in splitInput). Proved: the validated
@@ -389,8 +389,8 @@ package updown
 //@   after call:writeUpdownTable#1: do gWriteFailed = ret() != nil
 //@   after call:writeUpDownCatchment#1: do gWriteFailed = ret() != nil
 //@   before return#9: assert [c18.nil.means.clean] len(recvd(cErr)) == 0 && len(recvd(cResults)) == nQ
-//@   ensures [c18.error.returned] implies(gErrSeen, result != nil)
-//@   ensures [c19.writer.error.returned] implies(gWriteFailed, result != nil)
+//@   ensures [local.c18.error.returned] implies(gErrSeen, result != nil)
+//@   ensures [local.c19.writer.error.returned] implies(gWriteFailed, result != nil)
 
 //@ # C08 --dist-push: the k-nearest-distances bins.
 //@ func getMaxKey
